@@ -125,11 +125,7 @@ Fixpoint set_nth {A} (l : list A) (i : nat) (x : A) : list A :=
   | y :: r, S j => y :: set_nth r j x
   end.
 
-Definition set_pc (s : state) (i : nat) (p : pc) : state :=
-  match nth_error (thr s) i with
-  | Some (o, _) => set_thr s (set_nth (thr s) i (o, p))
-  | None => s
-  end.
+Definition set_pc (s : state) (i : nat) (o : op) (p : pc) : state := set_thr s (set_nth (thr s) i (o, p)).
 
 Definition init (ops : list op) : state :=
   mk false 0%Z [] false 0 false OFree (fun _ => false) (fun _ => 0) (fun _ => None)
@@ -140,55 +136,55 @@ Definition after_once (c : config) : epc := if inc_late c then EChk else EInc.
 Definition spawn (c : config) (s : state) : state :=
   if wg_in_go c then set_wp s WStart else set_wp (set_wg s (S (wg s))) WHead.
 
-Definition goto (s : state) (i : nat) (p : pc) : option state := Some (set_pc s i p).
-Definition ret (s : state) (i : nat) (r : res) : option state :=
-  Some (set_log (set_pc s i (PRet r)) (EvRet i r :: log s)).
+Definition goto (s : state) (i : nat) (o : op) (p : pc) : option state := Some (set_pc s i o p).
+Definition ret (s : state) (i : nat) (o : op) (r : res) : option state :=
+  Some (set_log (set_pc s i o (PRet r)) (EvRet i r :: log s)).
 
 Definition spawned (s : state) : bool := match wp s with WNone => false | _ => true end.
 
 Definition client_step (c : config) (s : state) (i : nat) (o : op) (p : pc) : option state :=
   match o, p with
   (* Enqueue(ob) after the caller changed ob's content to v *)
-  | OEnq ob v, PIdle => goto (set_log (set_val s (upd (val s) ob v)) (EvSet i ob v :: log s)) i (PE EOnce)
+  | OEnq ob v, PIdle => goto (set_log (set_val s (upd (val s) ob v)) (EvSet i ob v :: log s)) i o (PE EOnce)
   | OEnq _ _, PE EOnce =>
       match once s with
-      | ODone => goto s i (PE (after_once c))
-      | OFree => goto (set_once s OBusy) i (PE EOnceChk)
+      | ODone => goto s i o (PE (after_once c))
+      | OFree => goto (set_once s OBusy) i o (PE EOnceChk)
       | OBusy => None
       end
   | OEnq _ _, PE EOnceChk =>
-      if running s then goto (set_once s ODone) i (PE (after_once c)) else goto s i (PE EOnceLock)
-  | OEnq _ _, PE EOnceLock => if mu s then None else goto (set_mu s true) i (PE EOnceBody)
+      if running s then goto (set_once s ODone) i o (PE (after_once c)) else goto s i o (PE EOnceLock)
+  | OEnq _ _, PE EOnceLock => if mu s then None else goto (set_mu s true) i o (PE EOnceBody)
   | OEnq _ _, PE EOnceBody =>
-      if running s then goto s i (PE EOnceUnlock) else goto (spawn c (set_running s true)) i (PE EOnceUnlock)
-  | OEnq _ _, PE EOnceUnlock => goto (set_once (set_mu s false) ODone) i (PE (after_once c))
-  | OEnq _ _, PE EInc => goto (set_sched s (sched s + 1)%Z) i (PE (if inc_late c then ESend else EChk))
+      if running s then goto s i o (PE EOnceUnlock) else goto (spawn c (set_running s true)) i o (PE EOnceUnlock)
+  | OEnq _ _, PE EOnceUnlock => goto (set_once (set_mu s false) ODone) i o (PE (after_once c))
+  | OEnq _ _, PE EInc => goto (set_sched s (sched s + 1)%Z) i o (PE (if inc_late c then ESend else EChk))
   | OEnq _ _, PE EChk =>
-      if running s then goto s i (PE EFlag)
-      else if inc_late c then ret s i RRej else goto s i (PE (EDec RRej))
+      if running s then goto s i o (PE EFlag)
+      else if inc_late c then ret s i o RRej else goto s i o (PE (EDec RRej))
   | OEnq ob _, PE EFlag =>
-      if flag s ob then (if inc_late c then ret s i RDup else goto s i (PE (EDec RDup)))
-      else goto (set_flag s (upd (flag s) ob true)) i (PE (if inc_late c then EInc else ESend))
-  | OEnq _ _, PE (EDec r) => ret (set_sched s (sched s - 1)%Z) i r
+      if flag s ob then (if inc_late c then ret s i o RDup else goto s i o (PE (EDec RDup)))
+      else goto (set_flag s (upd (flag s) ob true)) i o (PE (if inc_late c then EInc else ESend))
+  | OEnq _ _, PE (EDec r) => ret (set_sched s (sched s - 1)%Z) i o r
   | OEnq ob _, PE ESend =>
-      if length (queue s) <? qsize c then ret (set_queue s (queue s ++ [ob])) i RAcc
+      if length (queue s) <? qsize c then ret (set_queue s (queue s ++ [ob])) i o RAcc
       else if qsize c =? 0 then
         match wp s with
-        | WSelect m => ret (set_wp (set_cur s ob) (WAdd1 m)) i RAcc   (* rendezvous with the writer's select *)
+        | WSelect m => ret (set_wp (set_cur s ob) (WAdd1 m)) i o RAcc   (* rendezvous with the writer's select *)
         | _ => None
         end
       else None
   (* Flush *)
-  | OFlush, PIdle => goto (set_log s (EvInv i :: log s)) i PF1
-  | OFlush, PF1 => if running s then goto s i PF2 else ret s i RUnit
-  | OFlush, PF2 => ret (set_token s true) i RUnit
+  | OFlush, PIdle => goto (set_log s (EvInv i :: log s)) i o PF1
+  | OFlush, PF1 => if running s then goto s i o PF2 else ret s i o RUnit
+  | OFlush, PF2 => ret (set_token s true) i o RUnit
   (* StopBatchWriter *)
-  | OStop, PIdle => goto (set_log s (EvInv i :: log s)) i (PS1 (spawned s))
-  | OStop, PS1 b => if mu s then None else goto (set_mu s true) i (PS2 b)
-  | OStop, PS2 b => if running s then goto s i (PS3 b) else goto s i (PS5 b)
-  | OStop, PS3 b => goto (set_running s false) i (PS4 b)
-  | OStop, PS4 b => match wg s with O => goto s i (PS5 b) | _ => None end
-  | OStop, PS5 b => ret (set_mu s false) i (RStop b)
+  | OStop, PIdle => goto (set_log s (EvInv i :: log s)) i o (PS1 (spawned s))
+  | OStop, PS1 b => if mu s then None else goto (set_mu s true) i o (PS2 b)
+  | OStop, PS2 b => if running s then goto s i o (PS3 b) else goto s i o (PS5 b)
+  | OStop, PS3 b => goto (set_running s false) i o (PS4 b)
+  | OStop, PS4 b => match wg s with O => goto s i o (PS5 b) | _ => None end
+  | OStop, PS5 b => ret (set_mu s false) i o (RStop b)
   | _, _ => None
   end.
 
